@@ -92,7 +92,12 @@ prologue(void)
         return -1;
     uint8 d[8] = {1, 2, 3, 4, 5, 6, 7, 8};
     Hputelement(f, 1000, 1, d, 3);
-    Hputelement(f, 1000, 2, d, 5);
+    {
+        /* the second element is stored in linked blocks: access ids on it share one special-information record */
+        int32 la = HLcreate(f, 1000, 2, 2, 2);
+        if (la == FAIL || Hwrite(la, 5, d) != 5 || Hendaccess(la) == FAIL)
+            return -1;
+    }
     Vstart(f);
     for (int k = 0; k < 2; k++) {
         int32 vs = VSattach(f, -1, "w");
@@ -162,7 +167,8 @@ use_id(int kind, int32 id, int obj)
             int32  len = -1;
             if (Hinquire(id, NULL, &t, &r, &len, NULL, NULL, NULL, NULL) == FAIL)
                 return 0;
-            return (t == 1000 && r == 1 + obj && len == (obj ? 5 : 3)) ? 1 : 2;
+            /* the linked-block element may be reported with its special tag */
+            return ((t == 1000 || t == (1000 | 0x4000)) && r == 1 + obj && len == (obj ? 5 : 3)) ? 1 : 2;
         }
         case K_BIT: {
             int b1 = Hgetbit(id);
